@@ -1631,7 +1631,7 @@ def c01_reserve(ctx):
         b = F.bodies[bn]
         cfg = ctx.cfg(b)
         r = ctx.run(b.name)
-        reserves = [(bb, c) for bb, c in r.call_sites() if 'reserve' in method(c['t'])]
+        reserves = [(bb, c) for bb, c in r.call_sites() if method(c['t']).startswith(('reserve', 'try_reserve'))]
         for (bb, src, line, via) in points[bn]:
             n += 1
             key = 'C01-RESERVE/' + key_of(b)
